@@ -58,6 +58,11 @@ void AssembleAction::onFinal()
 // SerialAssembleAction
 //////////////////////////
 
+SerialAssembleAction::~SerialAssembleAction()
+{
+    loop_.cancel(replay_run_id_);
+}
+
 bool SerialAssembleAction::startThisAction(Action *action)
 {
     if (action->start()) {
@@ -125,7 +130,8 @@ void SerialAssembleAction::onResume()
         curr_action_->resume();
 
     } else if (child_finish_func_) {
-        loop_.runNext(std::move(child_finish_func_));
+        replay_run_id_ = loop_.runNext(std::move(child_finish_func_), "SerialAssembleAction::onResume, replay");
+        child_finish_func_ = nullptr;
 
     } else {
         LogWarn("%d:%s[%s] can't resume", id(), type().c_str(), label().c_str());
@@ -137,6 +143,9 @@ void SerialAssembleAction::onStop()
     stopCurrAction();
     child_finish_func_ = nullptr;
 
+    loop_.cancel(replay_run_id_);
+    replay_run_id_ = 0;
+
     AssembleAction::onStop();
 }
 
@@ -144,6 +153,10 @@ void SerialAssembleAction::onReset()
 {
     curr_action_ = nullptr;
     child_finish_func_ = nullptr;
+
+    //! 撤消 onResume() 中已派发但还未执行的结果重放，否则它会作用到下一轮运行上
+    loop_.cancel(replay_run_id_);
+    replay_run_id_ = 0;
 
     AssembleAction::onReset();
 }
